@@ -66,6 +66,12 @@ pub trait Prop: Sync {
     /// scenarios per tier
     fn budget(&self, thorough: bool) -> u64;
     fn generate(&self, seed: u64, thorough: bool) -> Scenario;
+    /// scenario `index` of a batch; by default a pure function of the derived seed,
+    /// a property may map a prefix of the indices to an enumeration
+    fn generate_at(&self, index: u64, seed: u64, thorough: bool) -> Scenario {
+        let _ = index;
+        self.generate(seed, thorough)
+    }
     fn check(&self, sc: &Scenario, st: &mut Stats) -> Verdict;
     fn rule(&self) -> &'static str;
     fn assumptions(&self) -> Vec<&'static str>;
@@ -131,7 +137,7 @@ fn worker(sh: Arc<Shared>, wi: usize) {
             sh.slots[wi].start.store(sh.t0.elapsed().as_millis() as u64, Ordering::Relaxed);
             sh.slots[wi].idx.store(i + 1, Ordering::Relaxed);
             let sc_seed = derive(sh.seed, i);
-            let sc = p.generate(sc_seed, sh.thorough);
+            let sc = p.generate_at(i, sc_seed, sh.thorough);
             let v = p.check(&sc, &mut st);
             if sh.slots[wi].abandoned.load(Ordering::Relaxed) {
                 // the watchdog has written this worker off (and counted the scenario as hung)
@@ -210,7 +216,7 @@ pub fn run_batch(p: &'static dyn Prop, seed: u64, thorough: bool, budget: u64, w
             }
             let sc_seed = derive(seed, i - 1);
             if p.id() == "C05" {
-                let mut sc = p.generate(sc_seed, thorough);
+                let mut sc = p.generate_at(i - 1, sc_seed, thorough);
                 sc.class = "hang".into();
                 let path = format!("{out_dir}/replays/C05-{sc_seed}.replay");
                 let _ = std::fs::create_dir_all(format!("{out_dir}/replays"));
